@@ -26,7 +26,8 @@ TRUSTED = [
     "fake host / peerstore / message sender of the harness; the peerstore returns addresses in a fixed order (pstoremem returns them in map order)",
     "sync.RWMutex writer preference (a pending Lock blocks later RLocks), used to place readers between the swap steps; goroutine ids parsed from runtime.Stack; "
     "reader counts read from sync.RWMutex by reflection",
-    "hangs are detected by a 500 ms watchdog (the spinning call is then ended by pointing dht.rt at an empty trie)",
+    "hangs are detected by a watchdog: 30 s, shortened to 0.5 s when the paging step the code is about to compute is 0 on a non-empty table "
+    "(the spinning call is then ended by pointing dht.rt at an empty trie); the recorded outcome is always what was observed",
 ]
 ASSUMPTIONS = [
     "K, the limit and table sizes are non-negative machine integers far below 2^63 (negative configured values are outside the model)",
